@@ -26,6 +26,7 @@ fn dispatch(req: &J) -> J {
         "elements" => lex::elements(req),
         "views" => views::run(req),
         "derive" => views::derive(req),
+        "derive2" => views::derive2(req),
         "ints" => views::ints(req),
         "parse" => match render::build_parser(req) {
             Err(e) => json!({"build_err": e}),
